@@ -11,7 +11,7 @@ def translate_docs(docs, tag, want=("ui", "header")):
     rejected = []
     results = [None] * len(docs)
     todo = list(range(len(docs)))
-    for attempt in range(3):
+    for attempt in range(6):
         jobs = [{"id": "d%d" % i, "source": docs[i].source, "modes": ["generate"], "want": list(want), "defassign": True}
                 for i in todo]
         out = common.translate(jobs, tag="%s_%d" % (tag, attempt))
